@@ -43,8 +43,17 @@ func (a snapshot) same(b snapshot) bool {
 func H_C10_source_untouched() {
 	opts := []ucfg.Option{ucfg.VarExp, ucfg.PathSep(".")}
 	u := verif.Uint64("u")
+	var srcA interface{} = map[string]interface{}{"b": u, "l": []interface{}{u, "x"}, "e": map[string]interface{}{}, "el": []interface{}{}}
+	if verif.Tier() > 0 && verif.Choice("generated-source", 2) == 1 {
+		// thorough: the object the source holds under "a" is every container shape of the tree generator
+		x := genNode("S.a", genSpec{depth: 1, keys: []string{"b", "l"}, maxList: 2, prims: 1, mixed: true}, true)
+		if x.Kind != kCfg {
+			return
+		}
+		srcA = x.toGo()
+	}
 	src, err := ucfg.NewFrom(map[string]interface{}{
-		"a": map[string]interface{}{"b": u, "l": []interface{}{u, "x"}, "e": map[string]interface{}{}, "el": []interface{}{}},
+		"a": srcA,
 		"r": "${a.b}", "l": []interface{}{1, 2}, "e": map[string]interface{}{}, "el": []interface{}{},
 	}, opts...)
 	verif.Assume(err == nil)
